@@ -16,11 +16,26 @@ CHECKS = {
          'TLC proves the transcribed RFC 7541 code (table from x/net) is a complete prefix code and lossless/strict on a boundary alphabet; every call of the real HuffmanEncode/HuffmanDecode on all strings <=2 bytes (thorough: decode <=3 bytes, 16.8M) plus seeded random/mutated strings is recorded and validated line by line by HuffmanTrace.tla. Bounded-exhaustive on the real code, so any table or padding deviation on short strings is certain to be seen.',
          'trusts TLC, the x/net table transcription (cross-checked: spec vs x/net on every input), JSON trace I/O', '6 C15'),
 }
-SRV_NOTE = 'trusts TLC, the RFC7540.tla transcription of RFC 7540 sections 4-6, golang.org/x/net/http2 as the independent peer (framing + HPACK), hook-based quiescence detection (build tag verif), JSON trace I/O'
-CHECKS['C08'] = ('server', 'TLC model of the server stream loop checked against an RFC 7540 reaction oracle; every explored (state, frame) edge replayed in lock-step into the real server; trace validation against the oracle',
-  'H2Server.tla (the server at frame granularity) is model-checked exhaustively to a frame bound with the invariant that every reaction is in RFC7540!Allowed and a request is dispatched only from a complete legal sequence. TLC then emits every (abstract state, peer frame) edge it explored as a scenario; the Go harness replays each into the real server over an in-memory connection with an independent x/net peer, and H2ServerTrace.tla re-derives the RFC stream state from the logged frames and requires the observed reaction (nothing / RST_STREAM(code) / GOAWAY(code) / close) to be in Tolerate(Allowed(state, frame)).',
-  SRV_NOTE, '6 C08')
-NOT_YET = {}
+SRV_NOTE = 'trusts TLC, the RFC7540.tla / HttpMsg.tla transcriptions of RFC 7540, golang.org/x/net/http2 as the independent peer (framing + HPACK), hook-based quiescence detection (build tag verif), JSON trace I/O'
+SRV_TECH = 'TLA+ model of the server connection (H2Server.tla) model-checked by TLC; its environment histories (+ generators for what the model abstracts) replayed in lock-step into the real server with an independent x/net peer; recorded traces validated by TLC against H2ServerTrace.tla'
+def srv(pid, text, ref):
+    CHECKS[pid] = ('server', SRV_TECH, text, SRV_NOTE, ref)
+srv('C01', 'H2Server.tla is model-checked (dispatch exactly once and only from complete legal requests, END_STREAM exactly once) with a well-formed peer interleaving up to three streams; every explored history plus generators for what the model abstracts (every split offset of real header blocks, padding/priority, empty DATA, chunkings, response shapes and sizes around a frame and above the windows, random interleavings and completion orders) is replayed into the real server; H2ServerTrace compares what the handler saw with what the x/net peer sent, and what the peer received with what the handler produced, field by field and byte by byte, and requires HEADERS then DATA with END_STREAM exactly once at every quiescent point.', '6 C01')
+srv('C06', 'H2Server.tla carries the flow-control ledger (granted vs sent per stream and connection, negative windows after SETTINGS decreases, no stall while both windows are open) and is model-checked over all interleavings of WINDOW_UPDATE / SETTINGS_INITIAL_WINDOW_SIZE / handler completions; the histories are replayed with a 13107-byte unit (65535 = 5 units) plus real-size generators (drain, negative window, exactly 2^31-1, raised MAX_FRAME_SIZE, shared connection window); the trace monitor keeps the peer-side ledger from the logged frames and checks every DATA frame against it, and progress at every quiescence.', '6 C06')
+srv('C08', 'H2Server.tla (the server at frame granularity) is model-checked exhaustively to a frame bound with the invariant that every reaction is in RFC7540!Allowed and a request is dispatched only from a complete legal sequence. TLC emits every (abstract state, peer frame) edge it explored as a scenario; each is replayed into the real server and H2ServerTrace.tla re-derives the RFC stream state from the logged frames and requires the observed reaction (nothing / RST_STREAM(code) / GOAWAY(code) / close) to be in Tolerate(Allowed(state, frame)).', '6 C08')
+srv('C09', 'A catalogue of stream-scoped offences (malformed fields before/after a dynamic-table insert, over-limit bodies, refused streams, peer resets at each life stage, handler panic, per-stream flow-control errors, frames in flight after the server reset) is placed among good streams, with later requests referencing HPACK entries inserted by the offending blocks; the trace monitor requires every other stream to satisfy the C01 clauses and the connection to survive.', '6 C09')
+srv('C10', 'The model carries the GOAWAY ledger (last-stream-id >= every dispatched stream, no dispatch above it); scenarios place every connection-scoped offence after 0..3 answered/running/half-sent requests with trailing traffic, including more than a hand-off queue of frames in the same write and a peer that stops reading; the monitor checks last-stream-id, non-increase, the code against the oracle, no dispatch of streams first seen after the error, and that ServeConn returns once the promised streams are done (with a goroutine-stack witness when it does not).', '6 C10')
+srv('C13', 'Adversarial schedules (rapid reset, half-open streams, PRIORITY/WINDOW_UPDATE floods on new ids, endless CONTINUATION, oversized / mis-declared bodies, control floods, handlers held) are replayed; at every quiescent point the hook gauges (running handlers, stream table, closed-stream memory, buffered header/body bytes, queue lengths) are compared with bounds that depend on the configured limits only, and the handler never sees a body or header list over its limit.', '6 C13')
+srv('C14', 'The trace monitor keeps the credit ledger of a conforming sender (DATA sent incl. padding vs WINDOW_UPDATE received) for the connection and each open stream; uploads larger than both windows with various chunking/padding, bodies that end in stream errors, and interleaved uploads with resets are replayed; credit must be positive at every quiescence, never increment 0, never above 2^31-1.', '6 C14')
+srv('C17', 'Fault enumeration driven by the model: byte prefixes of a recorded well-formed client stream (every offset in the thorough tier), structure-aware mutations (delete/duplicate/swap/flip/insert raw frame), peers that stop reading, write failures at the k-th byte, disconnects with handlers blocked or released; the monitor requires ServeConn to return, no goroutine left besides handlers, no recovered panic in connection code.', '6 C17')
+srv('C18', 'SETTINGS sequences (subsets, repeats, boundary and invalid values, unknown ids) interleaved with requests; the monitor counts ACKs against SETTINGS sent at every quiescence, checks frame lengths (HEADERS included) against the peer MAX_FRAME_SIZE, the x/net decoder is configured with the table size the peer advertised (an encoder using more fails to decode), and the server is held to the limits it advertised itself.', '6 C18')
+srv('C20', 'HttpMsgModel.tla enumerates header lists from a vocabulary of valid and invalid fields (insertions into / deletions from valid bases; TLC checks two independent formulations of RFC 7540 8.1.2 agree on all of them); each list is replayed first / after other requests / with table history, with and without body and trailers; the monitor applies HttpMsg!WellFormedRequest to the logged concrete list and requires dispatch iff well-formed, refusal of that stream alone otherwise, and a following good request to succeed.', '6 C20')
+CODEC_NOTE = 'trusts TLC, the transcription of RFC 7541 / RFC 7540 into TLA+ (cross-checked against golang.org/x/net on every input: disagreement makes the run inconclusive), JSON trace I/O'
+CHECKS['C03'] = ('hpack', 'transcribed RFC 7541 decoder in TLA+ (HpackWire/Hpack) model-checked against a nondeterministic conforming encoder; recorded real-decoder runs validated by TLC', 'HpackModel.tla composes any conforming encoder (nondeterministic representation choice, table-size schedule) with the RFC decoder and TLC checks decode(encode)=id and equal tables; the Go harness feeds bounded-exhaustive and seeded instruction sequences (every first-byte collision class, evictions, size updates, all byte strings <=2/3 for the rejection half) to the real decoder field by field and HpackTrace.tla requires the same triples, the same accept/reject and an identical dynamic table after every block.', CODEC_NOTE, '6 C03')
+CHECKS['C04'] = ('hpack', 'recorded real-encoder output parsed and decoded by the TLA+ RFC 7541 model (TLC trace validation)', 'For header-list sequences with store/sensitive flags and SetMaxTableSize schedules (bounded-exhaustive templates + seeded random, >70 inserts, integer boundary lengths, names/values ending in 0x00) the bytes the real AppendHeader emits are parsed by HpackWire!ParseIns (must parse completely), applied to the RFC decoder model and compared with the input list, the logged encoder table, the peer limit, update placement and never-indexed representation.', CODEC_NOTE, '6 C04')
+CHECKS['C05'] = ('frames', 'transcribed RFC 7540 frame layout in TLA+ (Frames.tla) model-checked for parse(serialise)=id; recorded WriteTo / ReadFrameFrom calls validated by TLC', 'FramesModel.tla checks ParseFrame(FrameBytes(f)) = f over an enumerated frame domain; every frame value buildable through the public API is written by the real code and the bytes must parse (in TLA+ and by x/net) to the fields that were set; frames from an independent writer (x/net, raw builder) with all flag bytes, reserved bits, padding and boundary values are read by the real parser and compared with ParseFrame, including bytes consumed.', CODEC_NOTE, '6 C05')
+CHECKS['C16'] = ('frames', 'TLC trace validation of real parser calls on truncations, mutations and random bytes against the total ParseFrame / HPACK progress model, plus a pool-ownership state machine over hook events', 'Every truncation of valid frame streams, structure-aware mutations and seeded random bytes are fed to ReadFrameFrom[WithSize] and HPACK.Next; FramesTrace.tla requires error-or-correct-reading of exactly 9+length bytes, reader positioned at the next frame, no panic, allocation within the limit, each HPACK step consuming input or failing, and validates the pool Get/Put events of every call with an ownership state machine (double put / two owners).', CODEC_NOTE, '6 C16')
+NOT_YET = {p: 'client-side and concurrency checks are the next build step (DESIGN.md section 9, step 4); not claimed until built' for p in ('C02', 'C07', 'C11', 'C12', 'C19')}
 
 def main():
     props = [json.loads(l) for l in open(os.path.join(V, 'properties.jsonl'))]
@@ -54,8 +69,12 @@ def main():
         },
         'engines': [
             {'name': 'server', 'path': 'spec/RFC7540.tla spec/HttpMsg.tla spec/H2Server.tla spec/H2ServerTrace.tla harness/srvdrv.go harness/memconn.go lib/srvfam.py',
-             'serves_properties': ['C08'],
+             'serves_properties': ['C01', 'C06', 'C08', 'C09', 'C10', 'C13', 'C14', 'C17', 'C18', 'C20'],
              'kind_free_text': 'TLA+ design model of the server connection + RFC oracle; TLC-generated scenarios replayed into the real server (x/net peer, in-memory conn, hook quiescence); TLC trace validation'},
+            {'name': 'hpack', 'path': 'spec/HpackWire.tla spec/Hpack.tla spec/HpackStatic.tla spec/HpackModel.tla spec/HpackTrace.tla harness/hpack.go lib/props/hpack_common.py',
+             'serves_properties': ['C03', 'C04'], 'kind_free_text': 'TLA+ transcription of RFC 7541 + TLC trace validation of real decoder/encoder runs'},
+            {'name': 'frames', 'path': 'spec/Frames.tla spec/FramesModel.tla spec/FramesTrace.tla harness/frames*.go lib/props/frames_common.py',
+             'serves_properties': ['C05', 'C16'], 'kind_free_text': 'TLA+ transcription of the RFC 7540 frame layout + TLC trace validation of real writer/parser calls and pool events'},
             {'name': 'huffman', 'path': 'spec/Huffman.tla spec/HuffmanModel.tla spec/HuffmanTrace.tla harness/huff.go', 'serves_properties': ['C15'],
              'kind_free_text': 'TLA+ transcription of RFC 7541 Appendix B + TLC trace validation of recorded real-code calls'},
         ],
